@@ -601,6 +601,58 @@ func (e *env) routingFor(r *rand.Rand, flight []byte, ref *tls.ClientHelloInfo, 
 	if n > 1 {
 		e.checkRouting(flight, ref, `{"sni":`+sniConfig(r, ref.ServerName)+`,"alpn":`+alpnConfig(r, ref.SupportedProtos)+`}`, "sni_and_alpn", tag, spec)
 	}
+	e.checkInsideNot(flight, ref, `{"sni":`+sniConfig(r, ref.ServerName)+`}`, `{"alpn":`+alpnConfig(r, ref.SupportedProtos)+`}`, tag, spec)
+}
+
+var notCache = map[string]*mt.Matcher{}
+
+// checkInsideNot: two tls matchers as the matcher sets of one "not" matcher (neither this name nor these protocols):
+// each of them has to see the hello from its first byte, whatever the one before it read. The verdict is the negation
+// of what the reference sub-matchers say on crypto/tls' view of the hello.
+func (e *env) checkInsideNot(flight []byte, ref *tls.ClientHelloInfo, cfgA, cfgB, tag string, spec *Spec) {
+	c := e.c
+	rmA, rmB := e.route(cfgA), e.route(cfgB)
+	if rmA.err != nil || rmB.err != nil {
+		return // reported by checkRouting
+	}
+	yes := func(rm *routeM) bool {
+		for _, m := range rm.refs {
+			if !m.Match(ref) {
+				return false
+			}
+		}
+		return true
+	}
+	want := !(yes(rmA) || yes(rmB))
+	cfg := `[{"tls":` + cfgA + `},{"tls":` + cfgB + `}]`
+	nm := notCache[cfg]
+	if nm == nil {
+		if len(notCache) > 500 {
+			for k, m := range notCache {
+				m.Close()
+				delete(notCache, k)
+			}
+		}
+		var err error
+		if nm, err = mt.Load("not", cfg); err != nil {
+			c.Violation("C07 generated matcher configuration rejected", err.Error(), &Witness{Kind: "routing", Matcher: cfg})
+			return
+		}
+		notCache[cfg] = nm
+	}
+	c.Journal("routing-not %s %s %s", tag, cfg, hex.EncodeToString(flight))
+	out := evalOn(nm, flight)
+	c.Obs("inside_not_verdicts_compared", 1)
+	c.Evals(1)
+	if out.v == "panic" {
+		c.Violation("C07 crash panic in "+out.panicAt+" (routing inside not "+tag+")", fmt.Sprintf("matcher panicked: %v", out.err), &Witness{Kind: "routing-not", Class: tag, RecordHex: hex.EncodeToString(flight), Matcher: cfg, Spec: spec})
+		return
+	}
+	if (out.v == mt.Yes) != want || (out.v != mt.Yes && out.v != mt.No) {
+		c.Violation("C07 routing verdict of tls matchers inside a not matcher differs: "+origin(tag),
+			fmt.Sprintf("not %s: on crypto/tls' ClientHelloInfo (server name %q, protos %s) the negated sub-matchers say %v; the not matcher on the complete flight says %s %s", cfg, ref.ServerName, short(ref.SupportedProtos), want, out.v, errStr(out.err)),
+			&Witness{Kind: "routing-not", Class: tag, RecordHex: hex.EncodeToString(flight), Matcher: cfg, Spec: spec, Ref: infoOf(ref)})
+	}
 }
 
 // ---------------------------------------------------------------------------
@@ -793,6 +845,18 @@ func replay(c *fw.Ctx, raw json.RawMessage) {
 			}
 		}
 		e.checkRouting(flight, ref, w.Matcher, kind, tag, w.Spec)
+	case "routing-not":
+		ref, _, rerr := reference(flight)
+		if ref == nil {
+			fmt.Println("replay: reference rejects the flight:", rerr)
+			return
+		}
+		var sets []map[string]json.RawMessage
+		if json.Unmarshal([]byte(w.Matcher), &sets) != nil || len(sets) != 2 {
+			fmt.Println("replay: cannot decode the not matcher's sets")
+			return
+		}
+		e.checkInsideNot(flight, ref, string(sets[0]["tls"]), string(sets[1]["tls"]), tag, w.Spec)
 	default:
 		ref, used, rerr := reference(flight)
 		out := evalOn(e.capture, flight)
